@@ -761,7 +761,10 @@ class PipeFunc(Generic[T]):
         if not isinstance(self.output_name, tuple):
             return {self.output_name: hint}
         if get_origin(hint) is tuple:
-            return dict(zip(self.output_name, get_args(hint)))
+            args = get_args(hint)
+            if len(args) == 2 and args[1] is Ellipsis:  # `tuple[T, ...]`: every output is a `T`
+                return {name: args[0] for name in self.output_name}
+            return dict(zip(self.output_name, args))
         return {name: NoAnnotation for name in self.output_name}
 
     def _maybe_profiler(self) -> contextlib.AbstractContextManager:
